@@ -3,11 +3,14 @@
    trace = [tid, thr: <<num, den>>, override, nfiles, featnames: <<STRING>>,
             rows: <<[id, file, tgt, feats: <<ints>>]>>                    -- genuine target flags, feature VALUES
             models: <<[fold, feat_pass, best_feat: STRING, desc, trained]>> -- as reported by the returned fold models
+            fits: <<[model, train: <<ids>>]>>, train_thr: <<num, den>>, direction: "" | feature name  -- training sets seen by Model.fit
             raised: STRING, descs: <<BOOLEAN per file>>,
             scores: <<[id, num, den, ok, nan, rank]>>]                     -- returned score (exact rational) and its dense
                                                                               rank among the returned scores of its file
    SafetyNet: unless override, the returned scores (with the returned direction) accept at least feat_total genuine
-   targets at thr (C01 formula per collection, summed), or they are the best feature's values with its direction. *)
+   targets at thr (C01 formula per collection, summed), or they are a best feature's values with its direction.
+   feat_total is RECOMPUTED from the recorded training sets (the best count over features x directions at train_fdr, over
+   the fold models), not taken from what the models report; FeatPassReported checks the report separately. *)
 EXTENDS Integers, Sequences, FiniteSets, FiniteSetsExt, SequencesExt, TLC, TLCExt, Json, IOUtils, TdcDef
 Traces == JsonDeserialize(IOEnv.TRACES_FILE)
 VARIABLE tid
@@ -25,24 +28,39 @@ Check(R, S) ==     \* R: id -> row, S: id -> returned score record
          IN Cardinality({i \in 1..n : tg[i] /\ Leq(qm[rk[i]], <<T.thr[1], T.thr[2]>>)})
       Accepted == FoldSet(LAMBDA f, a : a + AcceptedIn(f), 0, Files)
       NM == Len(T.models)
-      FeatTotal == Max({T.models[k].feat_pass : k \in 1..NM})
-      Best == CHOOSE k \in 1..NM : T.models[k].feat_pass = FeatTotal /\ \A j \in 1..(k - 1) : T.models[j].feat_pass < FeatTotal
-      FIdx == {j \in 1..Len(T.featnames) : T.featnames[j] = T.models[Best].best_feat}
-      IsBestFeature == /\ FIdx # {}
-                       /\ LET j == CHOOSE j \in FIdx : TRUE IN
-                          \A x \in Ids : ~S[x].nan /\ S[x].ok /\ S[x].num = R[x].feats[j] * S[x].den
-                       /\ \A f \in Files : T.descs[f] = T.models[Best].desc
+      NF == Len(T.featnames)
+      \* ---- what the best single feature did during training, recomputed from the recorded training sets ----
+      Train(k) == UNION {{T.fits[i].train[j] : j \in 1..Len(T.fits[i].train)} : i \in {i \in 1..Len(T.fits) : T.fits[i].model = k}}
+      FoldsFitted == {T.fits[i].model : i \in 1..Len(T.fits)}
+      FeatCount(k, j, d) ==
+         LET s == SetToSeq(Train(k) \cap Ids)  n == Len(s)
+             rk == [i \in 1..n |-> IF d THEN R[s[i]].feats[j] ELSE -R[s[i]].feats[j]]
+             tg == [i \in 1..n |-> R[s[i]].tgt]
+             qm == QMap(rk, tg, n)
+         IN Cardinality({i \in 1..n : tg[i] /\ Leq(qm[rk[i]], <<T.train_thr[1], T.train_thr[2]>>)})
+      Cands == IF T.direction = "" THEN 1..NF ELSE {j \in 1..NF : T.featnames[j] = T.direction}
+      Counts == [k \in FoldsFitted |-> [j \in Cands |-> [d \in BOOLEAN |-> FeatCount(k, j, d)]]]
+      BestCount(k) == Max({Counts[k][j][d] : j \in Cands, d \in BOOLEAN})
+      FeatTotal == IF FoldsFitted = {} THEN 0 ELSE Max({BestCount(k) : k \in FoldsFitted})
+      \* the returned scores are the values of A best feature, returned with ITS direction
+      IsBestFeature == \E k \in FoldsFitted, j \in Cands, d \in BOOLEAN :
+                          /\ Counts[k][j][d] = FeatTotal
+                          /\ \A x \in Ids : ~S[x].nan /\ S[x].ok /\ S[x].num = R[x].feats[j] * S[x].den
+                          /\ \A f \in Files : T.descs[f] = d
+      \* and the fold models report that count (Model.feat_pass)
+      Reported == \A m \in 1..NM : T.models[m].fold \in FoldsFitted => T.models[m].feat_pass = BestCount(T.models[m].fold)
   IN [\* an explicit calibration error (C11: no accepted target in some fold) is not a SILENT degradation
       Returned |-> \/ T.raised_type = "RuntimeError" /\ T.calib_error
                    \/ T.raised = "" /\ DOMAIN S = Ids /\ Len(T.descs) = T.nfiles /\ NM >= 1,
       SafetyNet |-> (T.raised = "" /\ DOMAIN S = Ids /\ NM >= 1) =>
                        (T.override \/ Accepted >= FeatTotal \/ IsBestFeature),
+      FeatPassReported |-> (T.raised = "" /\ NM >= 1) => Reported,
       info |-> IF T.raised = "" /\ DOMAIN S = Ids /\ NM >= 1
                THEN <<Accepted, FeatTotal, IsBestFeature>> ELSE <<0, 0, FALSE>>]
 RowsF == [x \in {T.rows[i].id : i \in 1..Len(T.rows)} |-> T.rows[CHOOSE i \in 1..Len(T.rows) : T.rows[i].id = x]]
 ScoresF == [x \in {T.scores[i].id : i \in 1..Len(T.scores)} |-> T.scores[CHOOSE i \in 1..Len(T.scores) : T.scores[i].id = x]]
 Init == tid \in 1..Len(Traces)
 Spec == Init /\ [][UNCHANGED tid]_tid
-Verdict == LET C == Check(RowsF, ScoresF)  F == {c \in {"Returned", "SafetyNet"} : ~C[c]} IN
+Verdict == LET C == Check(RowsF, ScoresF)  F == {c \in {"Returned", "SafetyNet", "FeatPassReported"} : ~C[c]} IN
            PrintT(<<"VERDICT", T.tid, IF F = {} THEN "accept" ELSE "reject", F, C.info>>)
 =============================================================================
